@@ -96,8 +96,12 @@ fn pso_extra(params: &Value, n: u32) -> Extra<RealProblem> {
                 let pr = it as f64 / n as f64;
                 wexact = (w.to_bits() == ((end - start) * pr + start).to_bits()) as i64;
                 let _ = progress;
-                // the weight in force during pass k is the one the schedule set at the end of pass k - 1 (progress
-                // (k - 1) / n), the start weight during pass 0
+            }
+        }
+        if name == "ParticleVelocitiesUpdate" {
+            // the weight in force during pass k is the one the schedule set at the end of pass k - 1 (progress
+            // (k - 1) / n), the start weight during pass 0
+            if let (Some(w), Ok(it)) = (w, state.try_get_value::<Iterations>()) {
                 let sched = if it == 0 { start } else { (end - start) * ((it - 1) as f64 / n as f64) + start };
                 wsched = (w.to_bits() == sched.to_bits()) as i64;
             }
